@@ -14,7 +14,18 @@ def speed_strings(rng):
 class C11(scen.WorldProp):
     id = "C11"
     lean_module = "Wheatley.Props.C11"
-    theorems = []
+    theorems = ["Wheatley.C11.interval_formula",
+                "Wheatley.C11.blow_index",
+                "Wheatley.C11.real_time",
+                "Wheatley.C11.line_after_look_to",
+                "Wheatley.C11.lookToDuration_is_3",
+                "Wheatley.C11.tickSleep_is_10ms",
+                "Wheatley.C11.wait_hits_line",
+                "Wheatley.C11.solo_closed_form",
+                "Wheatley.C11.step_in_row",
+                "Wheatley.C11.step_to_next_row",
+                "Wheatley.C11.peal_exact",
+                "Wheatley.C11.handstroke_gap"]
     level_text = ("theorems (any ordered field): blow index = r*N + p + floor(r/2)*g; I = m*60/2520/(2N+1); a wait "
                   "that starts before the bell's time ends exactly on it; hence every strike of a solo touch is at "
                   "T+3+I*index for any number of rows provided the 10 ms tick sleep is shorter than I; 5040 rows at "
